@@ -482,6 +482,46 @@ func TestC16Push(t *testing.T) {
 		srv.Close()
 		o.Count("gateway", "two runs, second setup fails")
 	}
+	// an interrupted run whose in-flight iterations take more than five seconds to finish (less than
+	// the completion timeout): the run waits for them, and what the gateway holds afterwards is the
+	// final result, those late iterations included
+	{
+		gw := &gateway{}
+		srv := httptest.NewServer(gw)
+		settings := envsettings.Settings{}
+		settings.Prometheus.PushGateway = srv.URL
+		ctx, cancelRun := context.WithCancel(context.Background())
+		began := time.Now()
+		go func() { time.Sleep(300 * time.Millisecond); cancelRun() }()
+		cfg := runkit.Config{Mode: "users", Ctx: ctx, Settings: settings,
+			Opts: options.RunOptions{MaxDuration: 30 * time.Second, Concurrency: 2, MaxFailuresRate: 100},
+			Scenario: func(*f1testing.T) f1testing.RunFn {
+				return func(*f1testing.T) {
+					if time.Since(began) > 240*time.Millisecond {
+						time.Sleep(5600 * time.Millisecond) // in flight when the interrupt arrives
+						return
+					}
+					time.Sleep(10 * time.Millisecond)
+				}
+			}}
+		out, hung, _ := runkit.DoTimeout(cfg, 60*time.Second)
+		cancelRun()
+		srv.Close()
+		if hung || out.Err != nil || out.Result == nil {
+			o.Fail("c16-run", "interrupted run against a push gateway did not complete")
+		} else {
+			sn := out.Result.Snapshot()
+			got := gw.iterationCounts()
+			if got["success"] != sn.SuccessfulIterationDurations.Count || got["fail"] != sn.FailedIterationDurations.Count || got["dropped"] != sn.DroppedIterationCount {
+				o.Fail("gateway-differs-from-result", fmt.Sprintf("run interrupted after 300 ms with two iterations in flight that take 5.6 s more (%d pushes arrived): the final result reports %d successful / %d failed / %d dropped, the gateway holds %d success / %d fail / %d dropped iteration samples",
+					gw.arrivals.Load(), sn.SuccessfulIterationDurations.Count, sn.FailedIterationDurations.Count, sn.DroppedIterationCount, got["success"], got["fail"], got["dropped"]))
+			}
+			o.Count("gateway", "interrupted run, slow drain")
+			o.Case("c01_ok", []string{kit.I(sn.SuccessfulIterationDurations.Count), kit.I(sn.FailedIterationDurations.Count), kit.I(sn.DroppedIterationCount),
+				kit.I(sn.SuccessfulIterationDurations.Count), kit.I(sn.FailedIterationDurations.Count), kit.I(sn.DroppedIterationCount),
+				"T", kit.I(got["success"]), kit.I(got["fail"]), kit.I(got["dropped"])}, "T", "push", "interrupted", "nt")
+		}
+	}
 	for pi, p := range plans {
 		gw := &gateway{delay: p.delay}
 		srv := httptest.NewServer(gw)
